@@ -101,6 +101,27 @@ def install():
 
     lmfit.minimize = minimize
 
+    # lmfit 1.3.4 keeps a *reference* to the parameter vector it is handed by the optimiser
+    # (result.last_internal_values = fvars) and uses it as the best point when a fit is
+    # aborted by max_nfev.  For method="leastsq" that vector is a view of MINPACK's C work
+    # array, which is freed when the AbortFitException unwinds scipy.optimize.leastsq: the
+    # reported parameters are then read from freed memory (observed: 4.6e-310, -2.4e+133).
+    # That is a source of nondeterminism in a dependency which no schedule or seed controls,
+    # so it goes behind a seam: the residual wrapper receives a private copy of the vector,
+    # which makes "aborted" mean what lmfit intends (the last evaluated point).
+    # See DESIGN.md, observation O1.
+    import numpy as _np
+    from lmfit.minimizer import Minimizer as _Minimizer
+
+    _orig_residual = _Minimizer._Minimizer__residual
+
+    def _residual_with_private_vector(self, fvars, apply_bounds_transformation=True):
+        if isinstance(fvars, _np.ndarray):
+            fvars = _np.array(fvars, dtype=float, copy=True)
+        return _orig_residual(self, fvars, apply_bounds_transformation)
+
+    _Minimizer._Minimizer__residual = _residual_with_private_vector
+
     # progress-step counter (how much bookkeeping happened before an exception)
     import pyimpspec.progress as _progress
 
